@@ -6,6 +6,8 @@
 //  D1i the same through instructions: mov #imm16 -> word, push word
 //  D2  three-way agreement on ar/arp addressing configuration: interpreter (observed register/step/offset) vs the
 //      annotated disassembler; test generator (pinned register is the one the disassembler names) over a full pass
+//  D3  after any instruction (all defined first words), every word read through the real accessor equals the layout applied to the
+//      resulting register state
 //  D2m the step a word selects is the step of that name: under generated modulo / bit-reversal / step configurations the
 //      named register ends where the plain "modr rN,<same step>[,dmod]" leaves it from the same state
 #include <regex>
@@ -480,6 +482,37 @@ vf::Result sub_D2m(uint16_t op, uint16_t x, uint64_t seed) {
     return vf::Result::pass();
 }
 
+// D3: whatever instruction ran, the words are still views of the register state: every word read through the real accessor equals
+// the layout applied to the resulting state (a field left wider than its slot by some handler shows up as a word that reads differently)
+vf::Result sub_D3(uint16_t op, uint16_t x, uint64_t seed) {
+    const optable::Info& info = optable::info(op);
+    if (info.entry < 0)
+        return vf::Result::pass();
+    icase::Machine& m = sut();
+    icase::ICase c;
+    c.st = gen_plain_state(seed);
+    for (int i = 0; i < 3; ++i)
+        c.st[flat::F_ip + i] = 0;
+    c.st[flat::F_ipv] = 0;
+    c.st[flat::F_lp] = 0;
+    c.st[flat::F_bcn] = 0;
+    c.opcode = op;
+    c.expansion = x;
+    vf::Stream s(seed ^ 0xD3);
+    c.pokes = icase::gen_pokes(s, c.st, op, x);
+    icase::IResult r = m.exec(c);
+    if (r.outcome != 0)
+        return vf::Result::pass();
+    for (int w = 0; w < NW; ++w) {
+        uint16_t real = m.f.pseudo_get(m.core, w), model = layout::read(w, r.after);
+        if (real != model)
+            return vf::Result::fail(std::string("C20:D3:view:") + layout::words()[w].name + ":" + info.name,
+                                    std::string("after ") + info.form + " (" + vf::hex(op) + " " + vf::hex(x) + ") the word " + layout::words()[w].name + " reads " +
+                                        vf::hex(real) + " but the register state it is a view of says " + vf::hex(model) + " (a field wider than its slot?)");
+    }
+    return vf::Result::pass();
+}
+
 // generator leg: the registers the disassembler names for a vector are the ones the generator pinned into the windows
 vf::Result sub_D2gen(const std::vector<uint8_t>& bytes) {
     TestCase tc;
@@ -534,6 +567,8 @@ vf::Result run_body(const std::string& body) {
         return sub_D2((uint16_t)a, (uint16_t)b, c);
     if (t[0] == "D2m")
         return sub_D2m((uint16_t)a, (uint16_t)b, c);
+    if (t[0] == "D3")
+        return sub_D3((uint16_t)a, (uint16_t)b, c);
     return vf::Result::pass();
 }
 
@@ -607,6 +642,22 @@ int main(int argc, char** argv) {
             vf::sample(info.form + " " + vf::hex(op) + ": " + Teakra::Disassembler::Do((uint16_t)op, 0, aa));
         }
     }
+    // D3: every defined first word (quick: the residue class op % 4 == seed % 4), generated second word and state
+    uint64_t d3 = 0;
+    for (uint32_t op = 0; op < 0x10000; ++op) {
+        if ((int)(op % (uint32_t)c.workers) != c.worker || (!thorough && ((op / c.workers) % 4) != (c.seed % 4)))
+            continue;
+        if (optable::info((uint16_t)op).entry < 0)
+            continue;
+        vf::Stream s(vf::mix64(c.seed * 977 + op));
+        for (int k = 0; k < (thorough ? 4 : 1); ++k) {
+            uint16_t x = (uint16_t)s.bits(16);
+            uint64_t seed = s.next();
+            RUN(sub_D3((uint16_t)op, x, seed), body_of("D3", op, x, seed));
+            ++d3;
+        }
+    }
+    vf::klass("D3: instructions after which all 19 words were re-read", d3);
     vf::klass("first words with ar/arp operands", d2forms);
     vf::klass("ar/arp agreement cases (interpreter vs annotated disassembler)", d2);
     // generator leg, one full pass, by worker 0 (every worker in the thorough tier)
